@@ -408,7 +408,7 @@ pub fn render(p: &Program, sp: &Spelling) -> Value {
 // ---------- program generator ----------
 
 const ALIAS_NAMES: [&str; 4] = ["@a", "@b", "@shift", "@sym"];
-const ALIAS_KEYS: [KeyCode; 9] = [LEFTSHIFT, RIGHTSHIFT, CAPSLOCK, TAB, RIGHTALT, LEFTCTRL, GRAVE, LEFTALT, SPACE];
+const ALIAS_KEYS: [KeyCode; 13] = [LEFTSHIFT, RIGHTSHIFT, CAPSLOCK, TAB, RIGHTALT, LEFTCTRL, GRAVE, LEFTALT, SPACE, LEFTMETA, RIGHTMETA, RIGHTCTRL, HENKAN];
 const PLAIN_MODS: [KeyCode; 6] = [RIGHTCTRL, LEFTMETA, RIGHTSHIFT, ESC, F1, LEFTSHIFT];
 const FINALS: [KeyCode; 10] = [A, S, J, K, SPACE, ENTER, K1, SEMICOLON, F5, BACKSLASH];
 const OUTS: [KeyCode; 12] = [LEFT, RIGHT, ESC, B, N, K9, BACKSPACE, F21, F20, LEFTCTRL, RIGHTALT, DELETE];
@@ -475,7 +475,7 @@ pub fn gen_program(rng: &mut Rng, g: &ProgGen) -> Program {
   for name in &names {
     let nd = rng.range(1, 3);
     for _ in 0..nd {
-      let nk = if rng.chance(1, 4) { 2 } else { 1 };
+      let nk = match rng.below(12) { 0..=7 => 1, 8..=9 => 2, 10 => 3, _ => 4 };
       let keys = rng.sample(&ALIAS_KEYS, nk);
       let extras = if rng.chance(1, 4) { vec![*rng.pick(&[LEFTMETA, F13, LEFTCTRL])] } else { vec![] };
       alias_entries.push(Entry::Alias { keys, extras, name: name.clone() });
@@ -517,6 +517,22 @@ pub fn gen_program(rng: &mut Rng, g: &ProgGen) -> Program {
         }
         others.push(Entry::RepeatOnly { repeat: gen_srep(rng, &mods, true), mods, key });
       }
+    }
+  }
+  // sibling triggers: a second mapping on the same final key whose modifiers differ from an earlier one in a single
+  // place, and a repeat-only entry addressing one of the two (trigger-set lookups must tell them apart)
+  if rng.chance(1, 6) {
+    if let Some(Entry::Single { mods, key, to, .. }) = others.iter().find(|e| matches!(e, Entry::Single { mods, .. } if !mods.is_empty())).cloned() {
+      let mut m2 = mods.clone();
+      match rng.below(3) {
+        0 => { m2.remove(rng.below(m2.len())); },
+        1 => { let i = rng.below(m2.len()); let k = *rng.pick(&PLAIN_MODS); if !m2.contains(&Md::Key(k)) { m2[i] = Md::Key(k); } },
+        _ => { if !names.is_empty() { let a = Md::Alias(rng.pick(&names).clone()); if !m2.contains(&a) { let i = rng.below(m2.len()); m2[i] = a; } } }
+      }
+      let to2 = to.clone().map(|t| ToKeys { mods: t.mods.into_iter().filter(|m| match m { Md::Alias(_) => m2.contains(m), _ => true }).collect(), key: *rng.pick(&OUTS) });
+      others.push(Entry::Single { mods: m2.clone(), key, to: to2, repeat: SRep::Absent, absorbing: vec![] });
+      let target = if rng.chance(1, 2) { mods } else { m2 };
+      others.push(Entry::RepeatOnly { repeat: gen_srep(rng, &target, true), mods: target, key });
     }
   }
   // alias definitions usually first, sometimes interleaved or after their uses
